@@ -546,18 +546,27 @@ def do_check(lane, seed, tier, a):
             continue
         seen.add(cls)
         scn, dec = v["scn"], v["decisions"]
-        ok, res = reproduces(lane, scn, dec, cls)
+        ok, res0 = reproduces(lane, scn, dec, cls)
         if not ok:
             errors.append("non-reproducible: run %s class %s did not recur under guided replay" % (v["run"], cls))
             continue
         ms, md, nexec = minimise(lane, scn, dec, cls)
         ok, res = reproduces(lane, ms, md, cls)
-        path = write_replay(lane, ms, md, res, seed, v["run"])
-        rep, same, raw = fresh_replay(lane.prop, path)
-        if not (rep and same):
+        # A minimised scenario may sit on a threshold where the violation depends on state of the
+        # interpreter the simulator does not own (seen with a change that recurses to Python's
+        # frame limit: whether the handler of the RecursionError fits depends on warm caches).
+        # Such a reduction is discarded and the unminimised run is reported instead; the replay
+        # file that is printed always reproduces in a fresh interpreter.
+        cands = ([(ms, md, res)] if ok else []) + [(scn, dec, res0)]
+        raw = ""
+        for cs, cd, cres in cands:
+            path = write_replay(lane, cs, cd, cres, seed, v["run"])
+            rep, same, raw = fresh_replay(lane.prop, path)
+            if rep and same:
+                out_viol.append((path, vclasses(cres)))
+                break
+        else:
             errors.append("non-reproducible in fresh interpreter: %s (%s)" % (path, raw[-200:]))
-            continue
-        out_viol.append((path, vclasses(res)))
     wall = time.time() - t0
     # 5. evidence
     if not a.no_evidence:
